@@ -36,10 +36,11 @@ Lemma add_peer_facts own e fuel t p :
   WF own t -> own < M -> pid p < M -> (386 <= fuel)%nat ->
   match add_peer true own e fuel t p with
   | (r, pr, t') =>
-      WF own t' /\ (exists v, r = Ret v) /\
+      WF own t' /\
+      ((exists v, r = Ret v) \/ (r = ErrProbe /\ exists q, In q pr /\ probe e q = PLocalFail)) /\
       ((at_least_as_close own t p < K)%nat -> r = Ret true) /\
       (r = Ret true -> In p (contacts t')) /\
-      (forall x, In x (contacts t) -> pid x <> pid p -> pkey x <> pkey p -> probe e x = true -> In x (contacts t')) /\
+      (forall x, In x (contacts t) -> pid x <> pid p -> pkey x <> pkey p -> probe e x <> PDead -> In x (contacts t')) /\
       (forall x, In x (contacts t) -> pid x <> pid p -> pkey x <> pkey p -> ~ In x pr -> In x (contacts t')) /\
       (forall x, In x (contacts t') -> x = p \/ In x (contacts t)) /\
       (forall x, In x pr -> In x (contacts t) /\ pid x <> pid p)
@@ -56,13 +57,14 @@ Proof.
   { rewrite <- M_pow. assert (In b t1) by (subst t1; apply in_or_app; right; left; reflexivity).
     destruct (chain_in_bounds _ _ _ _ C1 H). lia. }
   pose proof (add_core_progress own e 384 (S f) t1 p pre b post W1 N1 F Wd) as Pr.
+  pose proof (add_core_errprobe own e (S f) t1 p) as Ep.
   destruct (add_core own e (S f) t1 p) as [[r pr] t'].
   destruct Inv as (W' & I1 & I2 & I3 & I4 & I5 & I6).
   destruct Pr as (P1 & P2); [lia |].
   assert (NoConf : forall x, pkey x <> pkey p -> conflict x p = false).
   { intros x Hk. apply conflict_false_iff. intros Sk. apply same_key_pkey in Sk. contradiction. }
   split; [exact W' |].
-  split; [destruct r; [eauto | contradiction | contradiction] |].
+  split; [destruct r; [left; eauto | contradiction | contradiction | right; split; [reflexivity | apply Ep; reflexivity]] |].
   split; [intros Cn; apply P2; unfold at_least_as_close in *;
           pose proof (sub_filter_length (fun c => dist own (pid c) <=? dist own (pid p)) _ _ Sb); lia |].
   split; [exact I1 |].
@@ -83,7 +85,7 @@ Proof.
   intros W Ho V. destruct o as [p e | | p |]; cbn [step].
   - pose proof (add_peer_facts own e FUEL t p W Ho V FUEL_ge) as H.
     destruct (add_peer true own e FUEL t p) as [[r pr] t']. cbn.
-    destruct H as (W' & (v & ->) & _). split; [exact W' | exact I].
+    destruct H as (W' & [(v & ->) | (-> & _)] & _); (split; [exact W' | exact I]).
   - cbn. split; [exact W | exact I].
   - cbn in V. destruct (remove_peer_spec own t p W) as (t' & E & W' & _).
     { destruct (contacts_dist_lt own t W) as [| ]; apply dist_lt_M; assumption. }
